@@ -37,7 +37,7 @@ def compare_modes(s, sub, need_side=True):
         if c0 != c1:
             raise H.Violation('C07:strict-tolerant-tree-differs', case, O.first_diff(c1, c0) or '')
         labels.append('strict-ok')
-    if sub in ('doc', 'enum:envname') or (len(s) % 4 == 0 and '\\begin{' in s):
+    if sub in ('doc', 'enum:envname') or (len(s) % 16 == 0 and '\\begin{' in s):
         # the conservative-extension clause holds under every other option too: user-listed verbatim-like names
         sk = ('e', 'f', 'center', 'thm')
         o0 = T.outcome(s, 0, skip_envs=sk)
@@ -161,9 +161,9 @@ def plan(ctx):
                        ([('tokcore', 'A_TOK_CORE', 4, i, 64) for i in range(64)] if ctx.thorough else [])),
         ('shard_random', [('rnd', ctx.pick(1200, 30000), i) for i in range(16)]),
         ('shard_mutations', [('mut', ctx.pick(3, 30), i) for i in range(16)]),
-        ('shard_faults', [('faults', ctx.pick(45, 1200), i) for i in range(16)] +
-                         [('longfaults', ctx.pick(5, 120), 16 + i) for i in range(4)]),
-        ('shard_docs', [('docs', ctx.pick(120, 5000), i) for i in range(16)]),
+        ('shard_faults', [('faults', ctx.pick(32, 1200), i) for i in range(16)] +
+                         [('longfaults', ctx.pick(3, 120), 16 + i) for i in range(4)]),
+        ('shard_docs', [('docs', ctx.pick(80, 5000), i) for i in range(16)]),
     ]
 
 
